@@ -429,6 +429,14 @@ func redactPipelineStage(stage interface{}, redactFieldNames bool, keyPath []str
 					for subEl := subMap.Front(); subEl != nil; subEl = subEl.Next() {
 						subK := subEl.Key
 						subV := subEl.Value
+						if k == "$vectorSearch" && subK == "filter" {
+							if filterMap, ok := subV.(*orderedmap.OrderedMap[string, any]); ok {
+								// the pre-filter of a vector search is an ordinary MQL predicate over user
+								// fields: its keys must not be looked up in the search-operator tables
+								newSubMap.Set(subK, redactQueryValues(filterMap, redactFieldNames, false, nil, []string{}))
+								continue
+							}
+						}
 						subMeta, subFound := meta.Get(subK)
 						if subFound {
 							switch subMetaTyped := subMeta.(type) {
